@@ -41,6 +41,7 @@ func runC14(c *Ctx, r *Report) {
 	c14NoDroppedEntry(c, r, "C14.R13")
 	c14Replay(c, r, "C14.R14")
 	c14DNSRule(c, r, "C14.R15")
+	c06IsHTTP(c, r, "C14.R16")
 }
 
 // fieldAccesses returns for every function the struct fields it loads and stores.
